@@ -12,6 +12,7 @@ import (
 	"os"
 	"sort"
 	"strconv"
+	"strings"
 	"testing"
 	"time"
 )
@@ -200,7 +201,7 @@ func TestSyntheticBtreeV2InternalNode(t *testing.T) {
 	b := buildDenseGroupImage(n)
 	r := Decode(b)
 	for _, f := range r.Findings {
-		if f.Class == "refcount-link-count" {
+		if strings.HasPrefix(f.Class, "refcount-link-count") {
 			continue // the synthetic image links the root to itself n times without counting them
 		}
 		t.Errorf("finding %s @%#x: %s", f.Class, f.Addr, f.Detail)
